@@ -196,9 +196,9 @@ fn watchdog() {
                 same = 0;
                 last = t;
             }
-            if same >= 20 {
+            if same >= 120 {
                 let cur = WD_CUR.lock().unwrap().clone();
-                println!("{{\"scenarios\":{},\"samples\":[],\"bound\":\"exploration stopped at the first operation that did not return\",\"failures\":[{{\"check\":\"queue-operation-returns\",\"props\":\"C20\",\"count\":1,\"scenario\":{},\"detail\":\"the sequence had not finished after 5 s (every other one takes microseconds)\"}}]}}", t, op_json(&cur));
+                println!("{{\"scenarios\":{},\"samples\":[],\"bound\":\"exploration stopped at the first operation that did not return\",\"failures\":[{{\"check\":\"queue-operation-returns\",\"props\":\"C20\",\"count\":1,\"scenario\":{},\"detail\":\"the sequence had not finished after 30 s (every other one takes microseconds)\"}}]}}", t, op_json(&cur));
                 std::process::exit(0);
             }
         }
